@@ -46,6 +46,11 @@ pub assume_specification<T>[ bool::then_some ](b: bool, x: T) -> (r: Option<T>)
 // (A7) Option::flatten (no vstd specification)
 pub assume_specification<T>[ Option::<Option<T>>::flatten ](o: Option<Option<T>>) -> (r: Option<T>)
     ensures r == (match o { Some(x) => x, None => None::<T> });
+// (A8) Cow<str>::into_owned: total, result unspecified
+pub assume_specification<'a, B: ?Sized + std::borrow::ToOwned>[ std::borrow::Cow::<'a, B>::into_owned ](c: std::borrow::Cow<'a, B>) -> (r: <B as std::borrow::ToOwned>::Owned);
+// (A9) Option<(A, B)>::unzip (no vstd specification)
+pub assume_specification<A, B>[ Option::<(A, B)>::unzip ](o: Option<(A, B)>) -> (r: (Option<A>, Option<B>))
+    ensures r == (match o { Some((a, b)) => (Some(a), Some(b)), None => (None::<A>, None::<B>) });
 // (A3) std::slice::from_ref views one element as a one-element slice
 pub assume_specification<T>[ core::slice::from_ref ](x: &T) -> (r: &[T]) ensures r@ == seq![*x];
 
@@ -503,6 +508,10 @@ spec:
 // TRUSTED stand-in for `crate::error::Recover` as used by the covered code (`Recover::recover()` for a located
 // quantity): the recovered value is located at Span(0, 0) (src/located.rs + src/span.rs Recover impls)
 pub trait Recover: Sized { spec fn rec_ok(r: Self) -> bool; fn recover() -> (r: Self) ensures Self::rec_ok(r); }
+impl Recover for crate::quantity::Value {
+    open spec fn rec_ok(r: Self) -> bool { true }
+    #[verifier::external_body] fn recover() -> (r: Self) { unimplemented!() }
+}
 impl<T> Recover for Located<T> {
     open spec fn rec_ok(r: Self) -> bool { r.sp().s() == 0 && r.sp().e() == 0 }
     #[verifier::external_body] fn recover() -> (r: Self) { unimplemented!() }
@@ -772,6 +781,14 @@ pub fn slice_find<'a, T, P: Fn(&&'a T) -> bool>(s: &'a [T], pred: P) -> (r: Opti
         r.is_none() ==> forall|i: int| 0 <= i < s@.len() ==> pred.ensures((&&#[trigger] s@[i],), false),
         r.is_some() ==> exists|i: int| 0 <= i < s@.len() && *r.unwrap() == #[trigger] s@[i] && pred.ensures((&&s@[i],), true),
 { s.iter().find(pred) }
+#[verifier::external_body]
+pub fn slice_rposition<T, P: Fn(&T) -> bool>(s: &[T], pred: P) -> (r: Option<usize>)
+    requires forall|x: &T| #[trigger] pred.requires((x,)),
+    ensures
+        r.is_some() ==> r.unwrap() < s@.len() && pred.ensures((&s@[r.unwrap() as int],), true)
+            && forall|i: int| r.unwrap() < i < s@.len() ==> pred.ensures((&#[trigger] s@[i],), false),
+        r.is_none() ==> forall|i: int| 0 <= i < s@.len() ==> pred.ensures((&#[trigger] s@[i],), false),
+{ s.iter().rposition(pred) }
 pub proof fn lemma_vals_as_ref<T>(s: Seq<T>) ensures vals(s.as_ref()) == s { assert(vals(s.as_ref()) =~= s); }
 } // verus!
 
@@ -898,7 +915,7 @@ ret t
 spec:
         requires self.wf(), toks_ok(tokens@), tokens@.len() > 0 ==> offset == tokens@[0].span.s(),   // [C03]
             gbnd(offset as int),
-        ensures t.wf(), gbnd(t.start_spec()), gbnd(t.end_spec()),     // [C04] the text's own span is a reportable location
+        ensures t.wf(), gbnd(t.start_spec()), gbnd(t.end_spec()), t.start_spec() <= t.end_spec(),     // [C04] the text's own span is a reportable location
             tokens@.len() == 0 ==> t.frags().len() == 0 && t.start_spec() == offset && t.end_spec() == offset,
             tokens@.len() > 0 ==> tokens@[0].span.s() <= t.start_spec() && t.end_spec() <= tokens@.last().span.e(),    // [C04]
             // every fragment lies inside the token range and is the input slice at its span
@@ -947,7 +964,7 @@ before `t.append_str(&self.input[start..end], start);`#3:
         let ghost lo = tokens@[0].span.s();
         let ghost start0 = start as int;
 after `t.append_str(&self.input[start..end], start);`#3:
-        proof { if t.frags().len() > pre.len() { lemma_frags_push(pre, t.frags(), lo, start0, tokens@.last().span.e()); } else { lemma_frags_weaken(pre, lo, start0, tokens@.last().span.e()); } }
+        proof { if t.frags().len() > pre.len() { lemma_frags_push(pre, t.frags(), lo, start0, tokens@.last().span.e()); } else { lemma_frags_weaken(pre, lo, start0, tokens@.last().span.e()); } t.lemma_span_order(); }
 @*/
 /*@ fn src/parser/block_parser.rs BlockParser::capture_slice
 tags C03 C05
@@ -1301,22 +1318,212 @@ use vstd::prelude::*;
 use crate::*;
 use crate::block_parser::BlockParser;
 use crate::parser_model::*;
-use crate::located::Located;
+use crate::located::{Located, Recover};
 use crate::span::Span;
+use crate::error::SourceDiag;
+use crate::quantity::{Value, Number};
 verus! {
+broadcast use {crate::parser_ev::lemma_diags_trans, crate::parser_ev::lemma_grown_refl};
 /*@ type src/parser/quantity.rs ParsedQuantity
 derive
 @*/
+pub open spec fn pq_ok<'a>(r: ParsedQuantity<'a>) -> bool {
+    &&& r.quantity.sp().ok()
+    &&& (r.unit_separator.is_some() ==> r.unit_separator.unwrap().ok())
+    &&& (r.quantity.val().unit.is_some() ==> r.quantity.val().unit.unwrap().wf() && gbnd(r.quantity.val().unit.unwrap().start_spec()) && gbnd(r.quantity.val().unit.unwrap().end_spec())
+            && (r.unit_separator.is_some() ==> r.unit_separator.unwrap().s() <= r.quantity.val().unit.unwrap().end_spec()))
+    &&& r.quantity.val().value.value.sp().ok()
+}
+// the sub-parser is created over bp's own input, events and extensions: ASSUMED (Verus cannot follow the reborrow of
+// `bp.events` into the temporary block parser), but its two workers below are verified
 /*@ fn src/parser/quantity.rs parse_quantity stub
 ret r
 spec:
     requires old(bp).wf(), tokens@.len() > 0, toks_ok(tokens@),
     ensures final(bp).wf(), final(bp).same(old(bp)), final(bp).cur() == old(bp).cur(),
-        only_diags(final(bp).evs(), old(bp).evs()),
-        r.quantity.sp().ok(), r.unit_separator.is_some() ==> r.unit_separator.unwrap().ok(),
-        r.quantity.val().unit.is_some() ==> r.quantity.val().unit.unwrap().wf() && gbnd(r.quantity.val().unit.unwrap().start_spec()) && gbnd(r.quantity.val().unit.unwrap().end_spec())
-            && (r.unit_separator.is_some() ==> r.unit_separator.unwrap().s() <= r.quantity.val().unit.unwrap().end_spec()),
-        r.quantity.val().value.value.sp().ok(),
+        only_diags(final(bp).evs(), old(bp).evs()), pq_ok(r),
+@*/
+// ASSUMED leaf parsers (str::parse and slice patterns are outside the verifier)
+/*@ fn src/parser/quantity.rs int stub
+ret r
+spec:
+    requires block.wf(), tok.kind == TokenKind::Int    // [C03] the kind assertion
+    ensures r is Err ==> r->Err_0.sev() == crate::error::Severity::Error
+@*/
+/*@ fn src/parser/quantity.rs float stub
+ret r
+spec:
+    requires bp.wf(), tokens@.len() > 0, toks_ok(tokens@)
+    ensures r is Err ==> r->Err_0.sev() == crate::error::Severity::Error
+@*/
+/*@ fn src/parser/quantity.rs numeric_value stub
+ret r
+spec:
+    requires bp.wf(), toks_ok(tokens@)
+    ensures r.is_some() && r.unwrap() is Ok ==> r.unwrap()->Ok_0 is Number,
+        r.is_some() && r.unwrap() is Err ==> r.unwrap()->Err_0.sev() == crate::error::Severity::Error,
+@*/
+/*@ fn src/parser/quantity.rs not_ws_comment
+tags C03 C17
+ret r
+spec:
+    ensures r == !is_ws_comment(t.kind)
+@*/
+/*@ fn src/parser/quantity.rs trim_tokens
+tags C03 C17
+ret r
+spec:
+    requires toks_ok(s@)
+    ensures toks_ok(r@), r@.len() <= s@.len(),
+        exists|a: int, b: int| 0 <= a <= b <= s@.len() && r@ == s@.subrange(a, b),
+        // [C17] only whitespace/comment tokens are trimmed, and the result does not start or end with one
+        r@.len() > 0 ==> !is_ws_comment(r@[0].kind) && !is_ws_comment(r@.last().kind),
+        r@.len() == 0 ==> forall|i: int| 0 <= i < s@.len() ==> is_ws_comment((#[trigger] s@[i]).kind),
+rewrite `s.iter().rposition(not_ws_comment)` => `crate::slice_rposition(s, not_ws_comment)`
+before `let from = match s.iter().position(not_ws_comment) {`:
+    proof { lemma_vals_as_ref(s@); lemma_sub_ok(s@, 0, 0); assert(s@.subrange(0, 0) =~= Seq::<Token>::empty()); }
+after `let to = s.iter().rposition(not_ws_comment).unwrap();`:
+    proof { lemma_sub_ok(s@, from as int, to as int + 1); }
+@*/
+/*@ fn src/parser/quantity.rs frac
+tags C03 C04 C07
+ret r
+spec:
+    requires line.wf(), a.kind == TokenKind::Int, b.kind == TokenKind::Int,
+        exists|i: int, j: int| 0 <= i <= j < line.toks().len() && line.toks()[i] == a && line.toks()[j] == b,
+    ensures r is Ok ==> r->Ok_0 is Fraction,
+        r is Err ==> r->Err_0.sev() == crate::error::Severity::Error,
+enter:
+    proof {
+        let (i, j) = choose|i: int, j: int| 0 <= i <= j < line.toks().len() && line.toks()[i] == a && line.toks()[j] == b;
+        lemma_mono(line.toks(), i, j); lemma_tok(line.toks(), i); lemma_tok(line.toks(), j);
+    }
+@*/
+/*@ fn src/parser/quantity.rs text_value
+tags C03 C04 C07
+ret r
+spec:
+    requires old(bp).wf(), toks_ok(tokens@), gbnd(offset as int), tokens@.len() > 0 ==> offset == tokens@[0].span.s(),
+    ensures final(bp).wf(), final(bp).same(old(bp)), final(bp).cur() == old(bp).cur(), only_diags(final(bp).evs(), old(bp).evs()),
+        r is Text,
+@*/
+/*@ fn src/parser/quantity.rs mixed_num
+tags C03 C04 C07
+ret r
+spec:
+    requires bp.wf(), i.kind == TokenKind::Int, a.kind == TokenKind::Int, b.kind == TokenKind::Int,
+        exists|x: int, y: int| 0 <= x <= y < bp.toks().len() && bp.toks()[x] == a && bp.toks()[y] == b,
+    ensures r is Ok ==> r->Ok_0 is Fraction,
+        r is Err ==> r->Err_0.sev() == crate::error::Severity::Error,
+@*/
+/*@ fn src/parser/quantity.rs range_value
+tags C03 C02 C07
+ret r
+spec:
+    requires bp.wf(), toks_ok(tokens@),
+    ensures
+        // [C02] with the range extension off `2-3` is never read as a range
+        !bp.ext().has(Extensions::RANGE_VALUES) ==> r.is_none(),
+        // [C02] without a `-` token the value is never read as a range
+        (forall|i: int| 0 <= i < tokens@.len() ==> (#[trigger] tokens@[i]).kind != TokenKind::Minus) ==> r.is_none(),
+        r.is_some() && r.unwrap() is Ok ==> r.unwrap()->Ok_0 is Range,
+        r.is_some() && r.unwrap() is Err ==> r.unwrap()->Err_0.sev() == crate::error::Severity::Error,
+closure 0 `&Token` ret `b: bool`:
+        ensures b == (t.kind == TokenKind::Minus)
+before `let mid = tokens.iter().position(|t| t.kind == T![-])?;`:
+    proof { lemma_vals_as_ref(tokens@); }
+after `let (start, end) = tokens.split_at(mid);`:
+    proof { lemma_sub_ok(tokens@, 0, mid as int); lemma_sub_ok(tokens@, mid as int, tokens@.len() as int);
+            assert(start@ =~= tokens@.subrange(0, mid as int)); assert(end@ =~= tokens@.subrange(mid as int, tokens@.len() as int)); }
+    let ghost end0 = end@;
+after `let (_mid, end) = end.split_first().unwrap();`:
+    proof { lemma_sub_ok(end0, 1, end0.len() as int); assert(end@ =~= end0.subrange(1, end0.len() as int)); }
+@*/
+/*@ fn src/parser/quantity.rs parse_value
+tags C03 C04 C07
+ret r
+inline or_else 0
+inline unwrap_or_else 0
+spec:
+    requires old(bp).wf(), toks_ok(tokens@),
+        tokens@ == old(bp).toks().subrange(old(bp).cur() - tokens@.len(), old(bp).cur()), tokens@.len() <= old(bp).cur(),
+    ensures final(bp).wf(), final(bp).same(old(bp)), final(bp).cur() == old(bp).cur(), only_diags(final(bp).evs(), old(bp).evs()),
+        r.sp().ok(),     // [C04]
+closure 0 `&Token` ret `e: usize`:
+        ensures e == t.span.s()
+before `let start = tokens`:
+    proof {
+        lemma_off_mono(bp.toks(), bp.cur() - tokens@.len(), bp.cur());
+        if tokens@.len() > 0 { assert(tokens@[0] == bp.toks()[bp.cur() - tokens@.len()]); lemma_tok(tokens@, 0); }
+    }
+@*/
+/*@ fn src/parser/quantity.rs value
+tags C03 C04 C05
+ret r
+spec:
+    requires old(bp).wf(),
+    ensures final(bp).wf(), final(bp).same(old(bp)), final(bp).cur() >= old(bp).cur(), only_diags(final(bp).evs(), old(bp).evs()),
+        r.value.sp().ok(), r.scaling_lock.is_some() ==> r.scaling_lock.unwrap().ok(),
+        final(bp).cur() < final(bp).toks().len() ==> final(bp).toks()[final(bp).cur()].kind == TokenKind::Percent,
+closure 0 `TokenKind` ret `b: bool`:
+        ensures b == (t != TokenKind::Percent)
+@*/
+/*@ fn src/parser/quantity.rs parse_regular_quantity
+tags C03 C04 C07
+ret r
+spec:
+    requires old(bp).wf(), old(bp).cur() == 0,
+    ensures final(bp).wf(), final(bp).same(old(bp)), only_diags(final(bp).evs(), old(bp).evs()),
+        pq_ok(r),     // [C04] every span of the parsed quantity is a reportable location
+closure 0 `TokenKind` ret `b: bool`:
+        ensures b == (t != TokenKind::Percent)
+before `let text = bp.text(bp.span().start(), bp.parsed());`:
+            proof { lemma_sub_ok(bp.toks(), 0, bp.cur()); lemma_tok(bp.toks(), 0); }
+after `let sep = bp.bump_any();`:
+            proof { lemma_tok(bp.toks(), bp.cur() - 1); }
+after `if let Some(sep) = bp.consume(T![%]) {`:
+                proof { lemma_tok(bp.toks(), bp.cur() - 1); }
+@*/
+/*@ fn src/parser/quantity.rs parse_advanced_quantity
+tags C03 C04 C07 C02
+ret r
+inline or_else 0
+rewrite `bp\n        .tokens()\n        .iter()\n        .any(` => `crate::slice_any(bp.tokens(), `
+rewrite `value_tokens\n            .iter()\n            .rposition(` => `crate::slice_rposition(value_tokens, `
+spec:
+    requires old(bp).wf(), old(bp).cur() == 0,
+    ensures final(bp).wf(), final(bp).same(old(bp)), only_diags(final(bp).evs(), old(bp).evs()),
+        // [C02] a quantity written with the `%` separator is never reinterpreted by the advanced-units path
+        (exists|i: int| 0 <= i < old(bp).toks().len() && (#[trigger] old(bp).toks()[i]).kind == TokenKind::Percent) ==> r.is_none() && final(bp).evs() == old(bp).evs(),
+        r.is_some() ==> pq_ok(r.unwrap()),     // [C04]
+closure 0 `&Token` ret `b: bool`:
+        ensures b == (t.kind == TokenKind::Percent)
+closure 1 `TokenKind` ret `b: bool`:
+        ensures b == (t != TokenKind::Word)
+closure 2 `&Token` ret `b: bool`:
+        ensures b == !(t.kind == TokenKind::Whitespace || t.kind == TokenKind::BlockComment)
+before `let value_tokens = bp.consume_while(|t| !matches!(t, T![word]));`:
+    let ghost c0 = bp.cur();
+after `let value_tokens = bp.consume_while(|t| !matches!(t, T![word]));`:
+    let ghost vt0 = value_tokens@;
+    let ghost c1 = bp.cur();
+    proof { if vt0.len() > 0 { assert(vt0[0] == bp.toks()[c0]); assert(!is_ws_comment(vt0[0].kind)); } }
+before `let unit_tokens = bp.consume_rest();`:
+    proof {
+        let n = value_tokens@.len() as int;
+        lemma_sub_ok(vt0, 0, n); assert(value_tokens@ =~= vt0.subrange(0, n));
+        lemma_mono(value_tokens@, 0, n - 1); lemma_tok(value_tokens@, 0); lemma_tok(value_tokens@, n - 1);
+    }
+after `let unit_tokens = bp.consume_rest();`:
+    proof { if unit_tokens@.len() > 0 { lemma_tok(unit_tokens@, 0); } }
+@*/
+/*@ fn src/parser/quantity.rs scaling_lock
+tags C03 C04 C05
+ret r
+spec:
+    requires old(bp).wf()
+    ensures final(bp).wf(), final(bp).same(old(bp)), final(bp).evs() == old(bp).evs(), final(bp).cur() >= old(bp).cur(),
+        r.is_some() ==> r.unwrap().ok() && final(bp).cur() > old(bp).cur(),
 @*/
 } // verus!
 } // mod quantity_parser
